@@ -100,8 +100,9 @@ def registry(rep, names):
             rep.violation("pre_compute_distance/get_distances", "matrix_routine_raised", nm, {"identifier": nm, "rows": dname, "exception": "%s: %s" % (type(ex).__name__, str(ex)[:120])})
             continue
         for label, got in (("pre_compute_distance", got_file), ("get_distances", got_model)):
-            badp = [(i, j, float(got[i][j]), want[i][j]) for i in range(len(Zs)) for j in range(len(Zs)) if i != j and not (got[i][j] == want[i][j] or (got[i][j] != got[i][j] and want[i][j] != want[i][j]))]
-            m_pairs += len(Zs) * (len(Zs) - 1)
+            # every ordered pair, a sample with itself included (d(x, x) is 1 for the Gaussian kernel, -log sum x for Bhattacharyya ...)
+            badp = [(i, j, float(got[i][j]), want[i][j]) for i in range(len(Zs)) for j in range(len(Zs)) if not (got[i][j] == want[i][j] or (got[i][j] != got[i][j] and want[i][j] != want[i][j]))]
+            m_pairs += len(Zs) * len(Zs)
             if badp:
                 i, j, a, b = badp[0]
                 rep.violation(label, "matrix_entry_is_not_the_registered_metric_on_that_ordered_pair", nm, {"identifier": nm, "rows": dname, "i": i, "j": j, "entry": a, "metric_value": b, "n_wrong": len(badp)})
